@@ -19,6 +19,13 @@ NA = {
 }
 
 CHECKS = {
+    "C07": dict(
+        category="exploration",
+        text="Seeded search over ConstraintKMeans scenarios (all residues n mod k, degenerate geometries, both strategies, kmeans0 on/off, tiny max_iter) with every numpy.random request of the balancing code answered by the simulator -- adversarially (degenerate uniforms, identity/reversed/rotated permutations, range extremes) or from the pinned global RNG -- so that the size guarantee is examined for the draws the code can meet and any failure replays exactly; size, label-range, finite-centre, n_iter and nearest-centre oracles on fit and on plain/balanced predictions of arbitrary batch sizes; seam-call cap as bounded liveness.",
+        design_ref="DESIGN.md §4 C07, §3.4",
+        note="Trusted: scikit-learn KMeans for the initial clustering; entropy reaches the balancing code only through numpy.random.rand/permutation and check_random_state(None) as seen from mlinsights modules; strategy 'weights' is outside the statement.",
+        technique="deterministic simulation: owned entropy seam (adversarial + pinned) over generated scenarios, invariant oracles, step-capped liveness",
+    ),
     "C03": dict(
         category="exploration",
         text="Seeded search over call histories fit(A);[predict];fit(B) on one instance against fresh estimators, with the three entropy sources the property quantifies over owned by the simulator: numpy's global seed, the unseeded RandomState() constructor (OS entropy, answered from stream r: taped to be identical for refit-vs-fresh, redrawn for same-seed-same-model) and PYTHONHASHSEED (runs with string labels re-executed in a second interpreter). Bit equality of outputs and fitted attributes.",
